@@ -91,3 +91,40 @@ Lemma method_bodies_glue :
 Proof. repeat split; reflexivity. Qed.
 Lemma export_signatures_glue : GenFields.export_signatures = PublicView.export_signatures.
 Proof. reflexivity. Qed.
+
+(* ---- view entry points called with arguments ----
+   every function whose NAME presents its result as public is known to the model (a new public_* function stops
+   this lemma until it is reviewed and either modelled or listed as not being a view of a private key) *)
+Lemma public_named_defs_glue :
+  GenFields.public_named_defs = PublicView.public_named_defs /\
+  forallb (fun q => mem q (map fst PublicView.entry_params) || mem q PublicView.public_named_other)
+          GenFields.public_named_defs = true.
+Proof. split; vm_compute; reflexivity. Qed.
+(* the parameter lists (with defaults) of every entry point are the frozen ones *)
+Lemma entry_params_glue :
+  GenFields.entry_params = PublicView.entry_params /\ GenFields.entry_properties = PublicView.entry_properties.
+Proof. split; reflexivity. Qed.
+(* every parameter NAME of every entry point has been reviewed: it either asks for private output (frozen list) or is
+   one of the reviewed plain names; a view function that gains a parameter with a new name stops this lemma *)
+Lemma private_param_names_reviewed :
+  forallb (fun mp => forallb (fun pd => mem (fst pd) asks_private_params || mem (fst pd) reviewed_plain_params) (snd mp))
+          GenFields.entry_params = true.
+Proof. vm_compute. reflexivity. Qed.
+(* by default no entry point asks for private output: the default of every asks-for-private parameter is false / None *)
+Lemma defaults_do_not_ask_private :
+  forallb (fun mp => forallb (fun pd => negb (mem (fst pd) asks_private_params) || is_tf (a_truth (default_val (snd pd))))
+                             (snd mp)) GenFields.entry_params = true.
+Proof. vm_compute. reflexivity. Qed.
+(* which argument every forwarding call hands to which parameter of its callee, and the bodies of the two helpers
+   that only forward *)
+Lemma call_forwards_glue :
+  GenFields.call_forwards = PublicView.call_forwards /\
+  GenFields.hdkey_public_master_multisig_paths = PublicView.hdkey_public_master_multisig_paths /\
+  GenFields.hdkey_wif_public_paths = PublicView.hdkey_wif_public_paths /\
+  GenFields.hdkey_wif_paths = PublicView.hdkey_wif_paths.
+Proof. repeat split; reflexivity. Qed.
+(* the two rows the model interprets, found by the model's own lookup in the REGENERATED table *)
+Lemma interpreted_forwards_glue :
+  find_forward GenFields.call_forwards "HDKey.public_master_multisig" "self.public_master" = Some (snd (snd fw_pmm)) /\
+  find_forward GenFields.call_forwards "HDKey.wif_public" "self.wif" = Some (snd (snd fw_wif_public)).
+Proof. split; vm_compute; reflexivity. Qed.
